@@ -107,7 +107,8 @@ Aggregate(f, vals, nrows) ==
       [] \E i \in DOMAIN nn : ~IsNum(nn[i]) -> Err
       [] nn = <<>> -> Null
       [] f = "sum" -> SumSeq(nn)
-      [] f = "avg" -> RDiv(SumSeq(nn), NumV(Len(vals)))
+      \* AVG is claimed on NULL-free columns only (SUM / COUNT); with NULL members its value is left open
+      [] f = "avg" -> IF Len(nn) # Len(vals) THEN Unspec ELSE RDiv(SumSeq(nn), NumV(Len(vals)))
       [] f = "min" -> CHOOSE m \in Range(nn) : \A x \in Range(nn) : RCmp(m, x) <= 0
       [] f = "max" -> CHOOSE m \in Range(nn) : \A x \in Range(nn) : RCmp(m, x) >= 0
       [] OTHER -> Err
